@@ -137,6 +137,9 @@ def prepare(pid):
     t0 = time.time()
     st = {"driver_ok": False, "props_ok": False, "log": "", "theorems": {}, "bad": [], "forbidden": []}
     ok, log = build("CobaldVerif.Drive.All")
+    if ok:
+        # the native driver (models are import-free); the interpreter is the fallback
+        st["driver_native"], _ = build("driver")
     st["driver_ok"] = ok
     if not ok:
         st["log"] = log
@@ -165,19 +168,41 @@ def prepare(pid):
     return st
 
 
-def drive(lines, timeout=3600):
-    """pipe request lines through the Lean driver; returns list of parsed JSON outputs"""
-    if not lines:
-        return []
+DRIVER_EXE = os.path.join(LEAN_DIR, ".lake", "build", "bin", "driver")
+
+
+def _drive_chunk(lines, timeout):
     data = "\n".join(lines) + "\n"
-    with Lock():
-        pass
-    rc, out, err = _run(["lake", "env", "lean", "--run", "Driver.lean"], input=data, timeout=timeout)
+    if os.path.exists(DRIVER_EXE) and not os.environ.get("VERIF_INTERPRET"):
+        cmd = [DRIVER_EXE]
+    else:
+        cmd = ["lake", "env", "lean", "--run", "Driver.lean"]
+    rc, out, err = _run(cmd, input=data, timeout=timeout)
     if rc != 0:
         raise RuntimeError("lean driver failed: %s" % (err[-2000:] or out[-2000:]))
     res = [json.loads(l) for l in out.splitlines() if l.strip()]
     if len(res) != len(lines):
         raise RuntimeError("driver returned %d lines for %d requests" % (len(res), len(lines)))
+    return res
+
+
+def drive(lines, timeout=3600, jobs=1):
+    """pipe request lines through the Lean driver; returns list of parsed JSON outputs.
+    Requests are independent, so they may be spread over several driver processes."""
+    if not lines:
+        return []
+    with Lock():
+        pass
+    jobs = max(1, min(jobs, len(lines)))
+    if jobs == 1:
+        return _drive_chunk(lines, timeout)
+    from concurrent.futures import ThreadPoolExecutor
+    chunks = [lines[i::jobs] for i in range(jobs)]
+    with ThreadPoolExecutor(max_workers=jobs) as ex:
+        outs = list(ex.map(lambda c: _drive_chunk(c, timeout), chunks))
+    res = [None] * len(lines)
+    for i, o in enumerate(outs):
+        res[i::jobs] = o
     return res
 
 
